@@ -99,6 +99,9 @@ static string destCheck(const JsonDocument& d, const string& ref, size_t measure
   (void)serBuf;
   if (measured != ref.size()) return "measure";
   { std::ostringstream os; size_t n = ser(d, os); if (os.str() != ref || n != ref.size()) return "ostream"; }
+  // a stream with formatting state left over by the caller (width, fill, adjustment, flags): serialization is unformatted output
+  { std::ostringstream os; os.width(9); os.fill('*'); os.setf(std::ios::left, std::ios::adjustfield); os.setf(std::ios::hex | std::ios::showbase | std::ios::uppercase);
+    size_t n = ser(d, os); if (os.str() != ref || n != ref.size()) return "ostream-with-formatting-state"; }
   { string big(ref.size() + 16, (char)0xAA); size_t n = serBuf(d, &big[8], ref.size() + 1);
     if (n != ref.size() || big.compare(8, ref.size(), ref) != 0) return "buffer";
     if (nulRule && big[8 + ref.size()] != 0) return "buffer-nul";
@@ -106,6 +109,22 @@ static string destCheck(const JsonDocument& d, const string& ref, size_t measure
     for (int i = 0; i < 8; i++) if ((unsigned char)big[i] != 0xAA) return "buffer-underrun";
     for (size_t i = 8 + ref.size() + 1; i < big.size(); i++) if ((unsigned char)big[i] != 0xAA) return "buffer-overrun"; }
   return "";
+}
+
+// a pointer to a string that is longer than `s`, starts with `s`, and is already known to the document under test: a literal kept for a
+// linked string (ARENA) or the bytes of a string value some reference designates (a pool node). A view (ptr, s.size()) then ALIASES that string.
+static const char* aliasIn(JsonVariantConst v, const string& s) {
+  if (v.is<JsonString>()) { JsonString js = v.as<JsonString>(); if (js.c_str() && js.size() > s.size() && memcmp(js.c_str(), s.data(), s.size()) == 0) return js.c_str(); return nullptr; }
+  if (v.is<JsonArrayConst>()) { for (JsonVariantConst e : v.as<JsonArrayConst>()) if (const char* p = aliasIn(e, s)) return p; return nullptr; }
+  if (v.is<JsonObjectConst>()) for (JsonPairConst kv : v.as<JsonObjectConst>()) {
+    JsonString k = kv.key(); if (k.c_str() && k.size() > s.size() && memcmp(k.c_str(), s.data(), s.size()) == 0) return k.c_str();
+    if (const char* p = aliasIn(kv.value(), s)) return p; }
+  return nullptr;
+}
+static const char* aliasOf(const string& s, std::vector<JsonDocument>& docs) {
+  for (auto& d : docs) if (const char* p = aliasIn(d.as<JsonVariantConst>(), s)) return p;
+  for (auto& a : ARENA) if (a.size() > s.size() && memcmp(a.data(), s.data(), s.size()) == 0) return a.c_str();
+  return nullptr;
 }
 
 struct StrWriter { string out; size_t write(uint8_t c) { out += (char)c; return 1; } size_t write(const uint8_t* s, size_t n) { out.append((const char*)s, n); return n; } };
@@ -363,6 +382,13 @@ int main(int argc, char** argv) {
       else if (kind == "f") { uint32_t bb = (uint32_t)strtoul(val.c_str(), 0, 16); float g; memcpy(&g, &bb, 4); BITS(g) }
       else if (kind == "s") { string x = unhex(val); BITS(x) }
       else if (kind == "cs") { string x0 = unhex(val); const char* x = keep(x0); BITS(x) }
+#if __cplusplus >= 201703L
+      // "pv:k" / "pj:k": the first k bytes of the variant's OWN string, seen through a string_view / JsonString that shares its address
+      else if (kind == "pv" || kind == "pj") { JsonString own = a.as<JsonString>(); size_t k = (size_t)atol(val.c_str());
+        if (!own.c_str() || k > own.size()) out = "n/a";
+        else if (kind == "pv") { std::string_view x(own.c_str(), k); BITS(x) }
+        else { JsonString x(own.c_str(), k, JsonString::Linked); BITS(x) } }
+#endif
       else out = "bad-kind";
 #undef BITS
     } else if (op == "reset" || op == "geo" || op == "root" || op == "mem" || op == "memw" || op == "elem" || op == "elemw" || op == "set" || op == "setm" ||
@@ -388,6 +414,7 @@ int main(int argc, char** argv) {
         if (kind == "sc") { string s = unhex(arg); return DO(s); }
 #if __cplusplus >= 201703L
         // sized kinds are slices of a longer buffer: the byte after the slice is not a terminator
+        if (kind == "sva") { string s = unhex(arg); std::vector<JsonDocument> none_; /* values: only literals - a view into the target's own storage would dangle once the target is cleared */ const char* al = aliasOf(s, none_); if (al) { std::string_view v(al, s.size()); return DO(v); } string s2 = s + "97"; std::string_view v(s2.data(), s.size()); return DO(v); }
         if (kind == "sv") { string s = unhex(arg); size_t n = s.size(); s += "97"; std::string_view v(s.data(), n); bool r = DO(v); s.assign(s.size(), 'Z'); return r; }
 #endif
         if (kind == "sp") { string s = unhex(arg); std::vector<char> b(s.begin(), s.end()); b.push_back(0); char* p = b.data(); bool r = DO(p); memset(b.data(), 'Z', b.size()); return r; }
@@ -401,7 +428,8 @@ int main(int argc, char** argv) {
       };
       // WITHKEY(kk, keybytes, expr-using-KEY): the key is handed to the library through source kind kk (default std::string)
 #if __cplusplus >= 201703L
-#define KEY_SV(ks, body) else if (kk == "sv") { string kl_ = ks + "97"; std::string_view KEY(kl_.data(), ks.size()); body; }
+#define KEY_SV(ks, body) else if (kk == "sv") { string kl_ = ks + "97"; std::string_view KEY(kl_.data(), ks.size()); body; } \
+        else if (kk == "sva") { string kl_ = ks + "97"; const char* al_ = aliasOf(ks, docs); std::string_view KEY(al_ ? al_ : kl_.data(), ks.size()); body; }
 #else
 #define KEY_SV(ks, body)
 #endif
